@@ -5,7 +5,7 @@ import pickle
 import pickletools
 
 from vlib import asm, env, vocab
-from vlib.runner import Failure, ShardResult, hypothesis_search
+from vlib.runner import Failure, HarnessError, ShardResult, hypothesis_search
 
 ID = "C06"
 LEVEL = "exploration"
@@ -34,7 +34,7 @@ ASSUMPTIONS = [
 ]
 
 DELIVERIES = ("bytes", "bytearray", "memoryview", "bytesio", "bytesio_offset", "file",
-              "file_offset", "raw_seekable", "non_seekable")  # fmt: skip
+              "file_offset", "raw_seekable", "non_seekable", "dribble")  # fmt: skip
 BOUNDARY = (0, 1, 255, 256, 65535, 65536)
 
 
@@ -101,6 +101,17 @@ class NonSeekable:
 
     def remaining(self):
         return self._b.read()
+
+
+class Dribble(NonSeekable):
+    """a pipe / socket whose producer is slow: never more than a few bytes per read"""
+
+    def read(self, n=-1):
+        # read() / read(-1) means "until EOF" for every stream; only a sized read may come up short
+        k = -1 if n is None or n < 0 else min(n, 3)
+        out = self._b.read(k)
+        self.consumed += len(out)
+        return out
 
 
 def end_of_first(data):
@@ -172,6 +183,8 @@ def check_first(first, trailing, delivery, plain=False, scratch=None):
         start = len(junk)
     elif delivery == "non_seekable":
         src = NonSeekable(data)
+    elif delivery == "dribble":
+        src = Dribble(data)
     else:
         raise ValueError(delivery)
     try:
@@ -296,6 +309,8 @@ def check_stack(parts, delivery="bytes"):
         src = io.BytesIO(data)
     elif delivery == "raw_seekable":
         src = RawSeekable(data)
+    elif delivery == "dribble":
+        src = Dribble(data)
     else:
         src = NonSeekable(data)
     try:
@@ -347,6 +362,9 @@ def kf_c06_1(first, trailing):
 
 
 def replay(case):
+    if case.get("optimized"):
+        bad = _optimized_child([bytes.fromhex(case["hex"])])
+        return Failure(case, f"under python -O: {bad[0][1][:300]}") if bad else None
     scratch = os.path.join(env.SCRATCH, f"c06-{os.getpid()}")
     os.makedirs(scratch, exist_ok=True)
     try:
@@ -442,13 +460,74 @@ def shards(tier):
     out += [{"kind": "stack", "n": per, "idx": i} for i in range(4)]
     runs = 30000 if tier == "quick" else 1500000
     out += [{"kind": "atheris", "runs": runs, "idx": i} for i in range(1 if tier == "quick" else 6)]
+    out += [{"kind": "optimized", "n": 150 if tier == "quick" else 3000}]
     return out
+
+
+def _optimized_child(corpus):
+    """parse + re-serialise the corpus in an interpreter started with -O (assert statements are
+    compiled away there): [(hex, message)] for every pickle whose bytes do not come back"""
+    import json
+    import subprocess
+    import sys
+
+    from vlib import env
+
+    code = (
+        "import sys, json\n"
+        f"sys.path.insert(0, {env.VERIF_ROOT!r})\n"
+        "from vlib import env\n"
+        "from fickling.fickle import Pickled, StackedPickle\n"
+        "bad = []\n"
+        "for h in sys.stdin.read().split():\n"
+        "    d = bytes.fromhex(h)\n"
+        "    try:\n"
+        "        p = Pickled.load(d)\n"
+        "    except Exception:\n"
+        "        continue\n"
+        "    try:\n"
+        "        out = p.dumps(); parts = [q.dumps() for q in StackedPickle.load(d + d)]\n"
+        "    except Exception as e:\n"
+        "        bad.append([h, 're-serialising raises ' + repr(e)]); continue\n"
+        "    if out != d: bad.append([h, 'dumps() gives ' + out.hex()])\n"
+        "    elif parts != [d, d]: bad.append([h, 'stacked twice it parses as ' + repr([x.hex() for x in parts])])\n"
+        "print(json.dumps(bad))\n"
+    )
+    e = dict(os.environ, VERIF_REPO=env.REPO)
+    e.pop("PYTHONOPTIMIZE", None)
+    p = subprocess.run([sys.executable, "-O", "-c", code], input="\n".join(d.hex() for d in corpus).encode(),
+                       capture_output=True, env=e, cwd=env.VERIF_ROOT)  # fmt: skip
+    if p.returncode != 0:
+        raise HarnessError(f"python -O child failed: {p.stderr.decode()[-1500:]}")
+    return json.loads(p.stdout.decode().strip().splitlines()[-1])
 
 
 def run_shard(spec, seed):
     from hypothesis import strategies as st
 
     res = ShardResult()
+    if spec["kind"] == "optimized":
+        from vlib import values
+
+        corpus = []
+
+        def collect(v):
+            for proto in range(6):
+                try:
+                    corpus.append(pickle.dumps(v, protocol=proto))
+                except Exception:  # noqa: BLE001
+                    pass
+            return None
+
+        hypothesis_search(st.one_of(values.plain_values(max_leaves=6), values.instance_values()), collect, seed,
+                          spec["n"], res, batch=spec["n"])  # fmt: skip
+        corpus = sorted(set(corpus))
+        for h, msg in _optimized_child(corpus):
+            res.failures.append(Failure({"optimized": True, "hex": h}, f"under python -O, {bytes.fromhex(h)[:60]!r}: {msg[:300]}"))
+            break
+        for d in corpus:
+            res.note(d, len(d) > 20, klass="python -O", sample={"optimized": d.hex()[:120]})
+        return res
     if spec["kind"] == "atheris":
         from vlib import fuzz
 
@@ -474,7 +553,7 @@ def run_shard(spec, seed):
             def body(case):
                 (first, kind), trail, delivery = case
                 f, klass = check_first(first, trail, delivery, plain=(kind == "plain"), scratch=scratch)
-                if delivery == "non_seekable" and trail and klass == "parsed":
+                if delivery in ("non_seekable", "dribble") and trail and klass == "parsed":
                     res.excluded["KF-C06-1 non-seekable trailing-bytes clause"] += 1
                 res.note(
                     (first.hex(), trail.hex(), delivery),
@@ -492,7 +571,7 @@ def run_shard(spec, seed):
             member = st.one_of(*([firsts.map(lambda t: t[0])] * 7), bare)
             strat = st.tuples(
                 st.lists(member, min_size=1, max_size=6),
-                st.sampled_from(["bytes", "bytesio", "raw_seekable", "raw_seekable", "non_seekable"]),
+                st.sampled_from(["bytes", "bytesio", "raw_seekable", "raw_seekable", "non_seekable", "dribble"]),
             )
 
             def body(case):
